@@ -196,7 +196,8 @@ class Engine:
     def heap_write(self, st: State, ref: ObjRef, field: str, val):
         shape = self.reg.shapes.get(ref.shape)
         if shape is None or field not in shape.fields:
-            raise Unsupported(f"write to undeclared field {ref.shape}.{field}")
+            if shape is None or not self._auto_field(shape, field):
+                raise Unsupported(f"write to undeclared field {ref.shape}.{field}")
         saved, self.trace_fields = self.trace_fields, ()
         self.heap_read(st, ref, field)  # materialise initial value for old()
         self.trace_fields = saved
